@@ -228,6 +228,39 @@ Definition setChannel (t : list (str * chan)) (name : str) (c : chan) : list (st
 Definition chans_of_sets (sets : list (str * chan)) : list (str * chan) :=
   fold_left (fun t kv => setChannel t (fst kv) (snd kv)) sets [].
 
+(* ---- histories of edits on a capability set ----
+   CapabilitySet.remove: the exact (folded) element, KeyError if absent (the
+   inverse is not touched).  An edit is (true, c) = add c / (false, c) = remove c;
+   [user] selects UserCapabilitySet (IrcUser.addCapability) or CapabilitySet
+   (IrcChannel.addCapability, the registry sets).  add and remove raise BEFORE
+   they mutate (the assert of invertCapability / of '-owner', the KeyError of
+   set.remove), so a failing edit leaves the set as it was. *)
+Definition cs_remove (S : cset) (c : str) : res cset :=
+  let c' := fold c in if smem c' S then Ok (sremove c' S) else Raise KeyError.
+Definition set_edit_res (user : bool) (S : cset) (e : bool * str) : res cset :=
+  if fst e then (if user then ucs_add S (snd e) else cs_add S (snd e)) else cs_remove S (snd e).
+Definition set_edit (user : bool) (S : cset) (e : bool * str) : cset :=
+  match set_edit_res user S e with Ok S' => S' | Raise _ => S end.
+Definition set_history (user : bool) (es : list (bool * str)) (S0 : cset) : cset :=
+  fold_left (set_edit user) es S0.
+(* the same, with the outcome of every edit (0 = ok, else the exception code) *)
+Definition set_history_trace (user : bool) (es : list (bool * str)) (S0 : cset) : cset * list Z :=
+  fold_left (fun acc e =>
+               let r := set_edit_res user (fst acc) e in
+               (match r with Ok S' => S' | Raise _ => fst acc end,
+                snd acc ++ [match r with Ok _ => 0%Z | Raise x => exn_code x end]))
+            es (S0, []).
+
+(* ircdb.checkCapabilities(hostmask, capabilities, requireAll): default flags *)
+Fixpoint checkCapabilities (d : db) (cs : list str) (requireAll : bool) : res bool :=
+  match cs with
+  | [] => Ok requireAll
+  | c :: cs' =>
+      do b <- checkCapability d c (Flags false false false);
+      if requireAll then (if b then checkCapabilities d cs' requireAll else Ok false)
+      else (if b then Ok true else checkCapabilities d cs' requireAll)
+  end.
+
 (* ---- wire ---- *)
 Definition gSet (v : value) : cset := gLS v.
 Definition gUser (v : value) : user := User (gSet (nth_v 0 v)) (gB (nth_v 1 v)) (gB (nth_v 2 v)).
@@ -247,7 +280,9 @@ Definition gFlags (v : value) : flags := Flags (gB (nth_v 0 v)) (gB (nth_v 1 v))
    0: checkCapability (db cap flags)
    1: algebra (cap) -> (isCap isChanCap isAnti makeAnti unAnti invert fold)
    2: fold a list of cs_add over [] -> resulting set (or raise)
-   3: checkCapability (db cap flags), the channel table given as setChannel calls (names as spelled) *)
+   3: checkCapability (db cap flags), the channel table given as setChannel calls (names as spelled)
+   4: history of add/remove edits (user? initial-set edits) -> (final set, outcome of every edit)
+   5: checkCapabilities (db caps requireAll) *)
 Definition run (v : value) : value :=
   let p := nth_v 1 v in
   match gN (nth_v 0 v) with
@@ -258,5 +293,10 @@ Definition run (v : value) : value :=
             vS (fold c)]
   | 2 => vR vLS (fold_left (fun r c => do acc <- r; cs_add acc c) (gLS p) (Ok []))
   | 3 => vR vB (checkCapability (gDbSets (nth_v 0 p)) (gS (nth_v 1 p)) (gFlags (nth_v 2 p)))
+  | 4 => let r := set_history_trace (gB (nth_v 0 p))
+                                     (map (fun e => (gB (nth_v 0 e), gS (nth_v 1 e))) (gL (nth_v 2 p)))
+                                     (gSet (nth_v 1 p)) in
+         L [vLS (fst r); L (map I (snd r))]
+  | 5 => vR vB (checkCapabilities (gDb (nth_v 0 p)) (gLS (nth_v 1 p)) (gB (nth_v 2 p)))
   | _ => L []
   end.
